@@ -12,7 +12,7 @@ EXPLANATION = ("(R10.4) sync_inner_with_uncompressed_pos seeks the inner layer a
                "position-dependent field on all Ok paths (compression: state with a decompressor created in the same call, underlayer_pos; encryption: "
                "current_chunk_number, cipher + cache through load_in_cache, cache cursor; raw: inner seek with the header offset); new struct fields are "
                "reported; (R10.3, thorough) compile-fail witnesses: a second get_file/get_hash while an ArchiveFile is alive does not borrow-check. "
-               "R10.1 also requires every hash get_hash returns to come from the EndOfFile block parsed in the same call (nothing remembered from earlier operations). (R10.5) a reader never turns `0 bytes transferred` into an error unless the request was non-empty: reads with buffers of any size, empty ones included, leave the layer usable. "
+               "R10.1 also requires every hash get_hash returns to come from the EndOfFile block parsed in the same call (nothing remembered from earlier operations). (R10.6) BlocksToFileReader::read stores its terminal state (the one whose arm reads nothing) only in the EndOfFile arm of the block just parsed; (R10.5) a reader never turns `0 bytes transferred` into an error unless the request was non-empty: reads with buffers of any size, empty ones included, leave the layer usable. "
                "Equality of the returned bytes along a history is runtime and not decided.")
 TRUSTED = ['rustc MIR and borrow checker', 'std::io::Seek semantics of the underlying source']
 ASSUMPTIONS = ['the numeric correctness of the position arithmetic is not decided (C11 not applicable)']
@@ -355,6 +355,7 @@ def run(prog, rep, tier):
     r10_2(prog, rep, 'R10.2')
     r10_4(prog, rep)
     r10_5(prog, rep)
+    r10_6(prog, rep)
 
 
 def thorough_extra(rep, verif, repo):
@@ -445,3 +446,44 @@ def r10_5(prog, rep, RULE='R10.5'):
                        'unusable) although the same file read alone is fine', body.loc(bl.idx))
     if n == 0:
         rep.ob(RULE, True, RULE + '|mla|no-zero-count-error', 'no reader of crate mla turns a zero count of a caller-buffer read into an error', '-')
+
+
+def r10_6(prog, rep, RULE='R10.6'):
+    """"the bytes delivered do not depend on the buffer sizes used": the per-file reader enters its terminal state (after which every read returns 0) only
+    in the EndOfFile arm of the block it has just parsed -- never because one transfer moved 0 bytes, which a zero-length buffer also produces."""
+    from ..inline import inlined_body
+    bs = [b for b in prog.crates['mla'].bodies if (b.impl_adt or '').endswith('BlocksToFileReader') and b.name == 'read' and b.impl_trait == 'std::io::Read' and b.kind != 'Closure']
+    key0 = RULE + '|mla::<BlocksToFileReader as std::io::Read>::read|'
+    if len(bs) != 1:
+        rep.ob(RULE, False, key0 + 'anchor', 'expected one Read impl of BlocksToFileReader, found %d' % len(bs))
+        return
+    rep.fn(bs[0])
+    body = inlined_body(prog, bs[0], skip=('move_to_next_block',))
+    # terminal states: variants of the state enum whose arm in the state switch returns without reading (found from the code: the arm that reaches no read call)
+    st_adts = {str(st.rv.j.get('adt')) for bl in body.blocks for st in bl.stmts if st.kind == 'assign' and st.rv.r == 'aggregate' and str(st.rv.j.get('adt', '')).endswith('BlocksToFileReaderState')}
+    if len(st_adts) != 1:
+        rep.ob(RULE, False, key0 + 'anchor', 'state enum of the per-file reader not found', bs[0].loc())
+        return
+    st_adt = st_adts.pop()
+    terminal = set()
+    for sbb, si in arm_of_enum_switch(prog, body, adt=st_adt):
+        o = origins(body, [si['place'][0]], through_calls=False)
+        if 1 not in o.params:
+            continue
+        for v, tgt in si['arms'].items():
+            r = body.reachable(tgt, removed_blocks=[sbb])
+            reads = [b for b in body.calls() if b.idx in r and (b.term.cmethod in ('read', 'read_exact', 'read_to_end') and b.term.ctrait == 'std::io::Read' or cnorm(b.term) == 'ArchiveFileBlock::from')]
+            if not reads:
+                terminal.add(v)
+    if not terminal:
+        rep.ob(RULE, False, key0 + 'anchor', 'no terminal state found in the state switch of the per-file reader', bs[0].loc())
+        return
+    blocksw = [(sbb, si) for sbb, si in arm_of_enum_switch(prog, body, adt='ArchiveFileBlock') if 'EndOfFile' in si['arms']]
+    stores = [(bl.idx, i, st.rv.j.get('variant')) for bl in body.blocks if not bl.cleanup for i, st in enumerate(bl.stmts)
+              if st.kind == 'assign' and st.rv.r == 'aggregate' and str(st.rv.j.get('adt', '')) == st_adt and st.rv.j.get('variant') in terminal]
+    rep.floor(RULE, len(stores), 1, 'stores of a terminal state in BlocksToFileReader::read')
+    for k, (bb, i, v) in enumerate(stores):
+        ok = any(enum_arm_target(si, 'EndOfFile') is not None and body.edge_dominates((sbb, enum_arm_target(si, 'EndOfFile')), bb) for sbb, si in blocksw)
+        rep.ob(RULE, ok, key0 + 'terminal-state#%d|only-at-end-of-file-block' % k, 'state %s is entered in the EndOfFile arm of the parsed block' % v if ok else
+               'the per-file reader enters its terminal state %s outside the EndOfFile arm of a parsed block: a condition on the bytes moved by one read (0 for an empty '
+               'buffer) ends the file early, and what get_file delivers depends on the buffer sizes of the caller' % v, body.loc(bb, i))
